@@ -304,8 +304,13 @@ func (l *Listener) Accept() (net.Conn, error) {
 	}
 }
 
+// Close closes the listener; like a socket, closing it again reports that it is closed already.
 func (l *Listener) Close() error {
-	l.once.Do(func() { close(l.closed) })
+	first := false
+	l.once.Do(func() { close(l.closed); first = true })
+	if !first {
+		return &net.OpError{Op: "close", Net: "mem", Err: net.ErrClosed}
+	}
 	return nil
 }
 
